@@ -3,6 +3,7 @@ From Coq Require Import ZArith List Bool String.
 From KV Require Import Base.Sx Base.Str Gen.Generated Model.Npy Model.StoreErr Proofs.NpyP Proofs.StoreErrP.
 From KV Require Import Model.Prune Model.LostMap Model.VfwDamage Proofs.VfwDamageP Proofs.NpyHdrP.
 From KV Require Proofs.C06P.
+From KV Require Import Proofs.PutHistoryP.
 Import ListNotations.
 Open Scope Z_scope.
 
@@ -447,3 +448,38 @@ Theorem C08_npy_read_unavailable_refuted :
             vfw_getter AOther SNpy (LRaise e) = Ret Placeholder /\ vfw_getter AFlags SNpy (LRaise e) = Ret DefaultFill.
 Proof. exact npy_read_unavailable_refuted. Qed.
 Print Assumptions C08_npy_read_unavailable_refuted.
+
+(* ==== histories of puts to one chunk name (any number of puts, each with its own list of environment answers: crashes,
+   errors, short writes, leftovers of a dead writer's temp file) ====
+   - the chunk name always holds what it held before the history or the COMPLETE content of one of the puts;
+   - once a put has reported success the name holds that put's content or the complete content of a LATER put: nothing
+     older and nothing partial comes back, whatever fails afterwards;
+   - re-putting the same content over a complete copy is stable. *)
+Theorem C08_put_history_atomic : forall base ps f,
+  lookup (final_name base) (snd (run_puts base ps f)) = lookup (final_name base) f \/
+  exists p, In p ps /\ lookup (final_name base) (snd (run_puts base ps f)) = Some (pr_new p).
+Proof. exact puts_final_is_some_put. Qed.
+Print Assumptions C08_put_history_atomic.
+
+Theorem C08_put_history_last_success_or_later : forall base pre p post f,
+  nth (List.length pre) (fst (run_puts base (pre ++ p :: post) f)) None = Some (Ret tt) ->
+  lookup (final_name base) (snd (run_puts base (pre ++ p :: post) f)) = Some (pr_new p) \/
+  exists q, In q post /\ lookup (final_name base) (snd (run_puts base (pre ++ p :: post) f)) = Some (pr_new q).
+Proof. exact puts_history. Qed.
+Print Assumptions C08_put_history_last_success_or_later.
+
+Theorem C08_put_same_content_stable : forall base writes trunc meta_ok evs f,
+  lookup (final_name base) f = Some (new_content writes trunc) ->
+  lookup (final_name base) (snd (put_chunk base writes trunc meta_ok evs f)) = Some (new_content writes trunc).
+Proof. exact put_same_content_stable. Qed.
+Print Assumptions C08_put_same_content_stable.
+
+Theorem C08_put_history_example :
+  let A := {| pr_writes := [[1; 2]; [3]]; pr_trunc := None; pr_meta := true; pr_evs := [] |} in
+  let B := {| pr_writes := [[7; 7]; [8; 8]]; pr_trunc := None; pr_meta := true; pr_evs := [EOk; EOk; EShort 1; EErr B_OSError] |} in
+  let C := {| pr_writes := [[9; 9; 9]]; pr_trunc := None; pr_meta := true; pr_evs := [EOk; EDie 2] |} in
+  let r := run_puts [97] [A; B; C] [] in
+  nth 0 (fst r) None = Some (Ret tt) /\ nth 1 (fst r) None <> Some (Ret tt) /\ nth 2 (fst r) None = None /\
+  lookup (final_name [97]) (snd r) = Some [1; 2; 3].
+Proof. exact puts_history_example. Qed.
+Print Assumptions C08_put_history_example.
